@@ -357,7 +357,7 @@ func genVarCost(t *rapid.T, s *proj.Server) (Case, bool) {
 		cd := cands[rapid.IntRange(0, len(cands)-1).Draw(t, "cand")]
 		ad := intArg(cd.fd)
 		v := fmt.Sprintf("c%d", i)
-		val := rapid.SampledFrom([]int64{0, 1, 2, 7, 1000, 1 << 31 - 1}).Draw(t, "varvalue")
+		val := rapid.SampledFrom([]int64{0, 1, 2, 7, 1000, 1<<31 - 1}).Draw(t, "varvalue")
 		switch rapid.IntRange(0, 2).Draw(t, "varform") {
 		case 0: // provided
 			typ := "Int"
@@ -488,7 +488,9 @@ func TestSafeAddGrid(t *testing.T) {
 	}
 	// exhaustive grid, no randomness
 	vfrun.Run(t, vfrun.Prop[GridCase]{Property: "C14", Name: "TestSafeAddGrid",
-		Gen:   func(t *rapid.T) GridCase { return GridCase{rapid.SampledFrom(grid).Draw(t, "a"), rapid.SampledFrom(grid).Draw(t, "b")} },
+		Gen: func(t *rapid.T) GridCase {
+			return GridCase{rapid.SampledFrom(grid).Draw(t, "a"), rapid.SampledFrom(grid).Draw(t, "b")}
+		},
 		Check: checkGrid}, 0)
 	if vfrun.Shard() != 0 {
 		return
